@@ -41,7 +41,7 @@ type c15Stream struct {
 	Kind      string // malformed | interleave | write-fail | bad-login | bad-pid | clean
 	Lines     []string
 	Groups    map[string]auGroup // by marker, groups expected to be emitted
-	FaultPos  int               // line index of the malformed line / login position
+	FaultPos  int                // line index of the malformed line / login position
 	FaultLine string
 	FailAt    int // recorder fails at this Encode (1-based)
 	BadLogin  common.RemoteUserLogin
@@ -50,7 +50,7 @@ type c15Stream struct {
 	// -1: the login is bound before the first line.
 	LoginAfter int
 	Pid        int
-	Ses       string
+	Ses        string
 }
 
 // interleave merges record groups line-wise according to pattern (a list of
